@@ -83,6 +83,8 @@ var emptyXmlNamespaces = make([]XmlNamespace, 0)
 
 type xmlParser struct {
 	xmlReader  *xml.Decoder
+	pending    xml.Token
+	pendingErr error
 	namespaces []XmlNamespace
 	nsPos      int
 	attrs      []XmlAttribute
@@ -108,7 +110,7 @@ func (x *xmlParser) Pull() (node.Node, bool, error) {
 	x.attrPos = 0
 	x.namespaces = emptyXmlNamespaces
 	x.nsPos = 0
-	tok, err := x.xmlReader.Token()
+	tok, err := x.nextToken()
 
 	if err != nil {
 		return nil, false, err
@@ -123,8 +125,29 @@ func (x *xmlParser) Pull() (node.Node, bool, error) {
 			local: n.Name.Local,
 		}, false, nil
 	case xml.CharData:
+		// Adjacent character data forms a single text node: text, CDATA
+		// sections and references are reported as separate tokens.
+		value := string(n)
+
+		for {
+			next, err := x.xmlReader.Token()
+
+			if err != nil {
+				x.pendingErr = err
+				break
+			}
+
+			if more, ok := next.(xml.CharData); ok {
+				value += string(more)
+				continue
+			}
+
+			x.pending = xml.CopyToken(next)
+			break
+		}
+
 		return XmlCharData{
-			value: (string)(n),
+			value: value,
 		}, false, nil
 	case xml.Comment:
 		return XmlComment{
@@ -144,6 +167,24 @@ func (x *xmlParser) Pull() (node.Node, bool, error) {
 
 	//case xml.EndElement:
 	return nil, true, nil
+}
+
+// nextToken returns the token read ahead while merging character data, if
+// there is one, and otherwise reads the next token.
+func (x *xmlParser) nextToken() (xml.Token, error) {
+	if x.pending != nil {
+		tok := x.pending
+		x.pending = nil
+		return tok, nil
+	}
+
+	if x.pendingErr != nil {
+		err := x.pendingErr
+		x.pendingErr = nil
+		return nil, err
+	}
+
+	return x.xmlReader.Token()
 }
 
 func createXmlNamespaces(attrs []xml.Attr) []XmlNamespace {
